@@ -70,17 +70,24 @@ func WriteInPlace(src *os.File, dest string) (AtomicFile, error) {
 	if err != nil {
 		return nil, err
 	}
+	// on failure discard the temporary file instead of leaving it behind
 	if _, err := src.Seek(0, 0); err != nil {
+		outfile.Close()
 		return nil, err
 	}
 	if _, err := io.Copy(outfile, src); err != nil {
+		outfile.Close()
 		return nil, err
 	}
 	if _, err := outfile.Seek(0, 0); err != nil {
+		outfile.Close()
 		return nil, err
 	}
-	err = src.Close()
-	return outfile, err
+	if err := src.Close(); err != nil {
+		outfile.Close()
+		return nil, err
+	}
+	return outfile, nil
 }
 
 // Write bytes to a file, using write-rename when appropriate
